@@ -366,10 +366,10 @@ def check_files(tier, seed, order, res):
     for i, (tag, present, keep, label) in enumerate(cases):
         # blank lines at section ends: where PICO-8 / picotool's writer put them, after every section, or nowhere
         blank = [('gfx', 'label', 'music'), tuple(P8_SECTION_ORDER), ()][(i // 2 + order) % 3]
-        data, want, lab = sparse_file(present, keep, seed, i % 7 + 1, label, [8, 16, 29, 41][i % 4], blank_after=blank)
+        data, want, lab = sparse_file(present, keep, seed, i % 7 + 1, label, [8, 0, 16, 29, 1, 41, 255][i % 7], blank_after=blank)
         pth = os.path.join(d, 'f%03d.p8' % i)
         open(pth, 'wb').write(data)
-        paths.append((pth, tag, want, lab, [8, 16, 29, 41][i % 4]))
+        paths.append((pth, tag, want, lab, [8, 0, 16, 29, 1, 41, 255][i % 7]))
     if order == 3:
         from pico8 import tool
         try:
